@@ -73,6 +73,8 @@ func main() {
 			clientScenario(seed, workers, iters, &r, fail)
 		case "secman-shared-config":
 			secmanScenario(seed, workers, iters, &r, fail)
+		case "cache-atomicity":
+			atomicityScenario(seed, workers, iters, &r, fail)
 		case "percommand-shared-config":
 			perCommandScenario(seed, workers, iters, &r, fail)
 		case "stream-duplex":
@@ -235,6 +237,114 @@ func cacheScenario(seed int64, workers, iters int, maint bool, r *result, fail f
 	if c.Size() != 0 {
 		fail("Size after Clear = %d", c.Size())
 	}
+}
+
+// ---- no lost updates: expiry sweeps against re-Store / RenewLease around the expiry ----
+//
+// Each owner goroutine works on its own ids (so "the last operation on this id" is
+// well defined) while sweeper goroutines run InvalidateExpired / LookupNonExpired
+// continuously. An id whose last operation was a Store with a future expiry, or a
+// RenewLease+Store that moved the expiry into the future, must be reachable
+// immediately afterwards and at quiescence: a sweep may only remove what is
+// expired at the moment it removes it.
+func atomicityScenario(seed int64, workers, iters int, r *result, fail func(string, ...interface{})) {
+	c := security.NewSessionCache()
+	key := &security.KeyInfo{Data: make([]byte, 32), Protocol: "AESGCM"}
+	var stop int32
+	var swg sync.WaitGroup
+	var smu sync.Mutex
+	stopped := func() bool { smu.Lock(); defer smu.Unlock(); return stop != 0 }
+	for i := 0; i < 3; i++ {
+		swg.Add(1)
+		go func(i int) {
+			defer swg.Done()
+			for !stopped() {
+				c.InvalidateExpired()
+				if i == 0 {
+					c.LookupNonExpired("probe-never-stored")
+				}
+			}
+		}(i)
+	}
+	type last struct {
+		id    string
+		entry *security.SessionEntry
+	}
+	lasts := make([][]last, workers)
+	var wg sync.WaitGroup
+	var mu sync.Mutex
+	ops, lost := 0, 0
+	for w := 0; w < workers; w++ {
+		wg.Add(1)
+		go func(w int) {
+			defer wg.Done()
+			rng := rand.New(rand.NewSource(seed*100 + int64(w)))
+			n := 0
+			for it := 0; it < iters; it++ {
+				id := fmt.Sprintf("own-%d-%d", w, it%3)
+				var live *security.SessionEntry
+				if rng.Intn(2) == 0 {
+					// an expired entry is replaced by a fresh one under the same id
+					c.Store(security.NewSessionEntry(id, "<10.0.0.2:9618>", key, nil, time.Now().Add(-time.Minute), 0, ""))
+					runtime.Gosched()
+					live = security.NewSessionEntry(id, "<10.0.0.2:9618>", key, nil, time.Now().Add(time.Hour), 0, "")
+					c.Store(live)
+				} else {
+					// an entry past its expiry is renewed and stored again (what a resuming handshake does)
+					live = security.NewSessionEntry(id, "<10.0.0.2:9618>", key, nil, time.Now().Add(-time.Second), time.Hour, "")
+					c.Store(live)
+					runtime.Gosched()
+					live.RenewLease()
+					c.Store(live)
+				}
+				n += 2
+				for k := 0; k < 20; k++ {
+					if e, ok := c.Lookup(id); !ok || e != live {
+						mu.Lock()
+						lost++
+						mu.Unlock()
+						fail("live session %s (stored/renewed with a future expiry as the last operation on it) was removed by a concurrent sweep", id)
+						c.Store(live)
+						break
+					}
+					runtime.Gosched()
+				}
+				if it >= iters-3 {
+					lasts[w] = append(lasts[w], last{id, live})
+				}
+				mu.Lock()
+				done := lost >= 3
+				mu.Unlock()
+				if done {
+					break
+				}
+			}
+			mu.Lock()
+			ops += n
+			mu.Unlock()
+		}(w)
+	}
+	wg.Wait()
+	smu.Lock()
+	stop = 1
+	smu.Unlock()
+	swg.Wait()
+	c.InvalidateExpired()
+	// quiescence: the last live entry of every id is still reachable
+	seen := map[string]bool{}
+	for w := range lasts {
+		for i := len(lasts[w]) - 1; i >= 0; i-- {
+			l := lasts[w][i]
+			if seen[l.id] {
+				continue
+			}
+			seen[l.id] = true
+			if e, ok := c.LookupNonExpired(l.id); !ok || e != l.entry {
+				fail("at quiescence the last stored/renewed session %s is unreachable", l.id)
+			}
+		}
+	}
+	r.Ops = ops
 }
 
 // ---- many client connections sharing one configuration object and one cache --
